@@ -73,6 +73,18 @@ def _finding_for(kf_prop, kind, text, sig=""):
     return None
 
 
+def _group_reports(ob_reports):
+    """One line per obligation (the same obligation arises on many paths): counts per verdict, back ends, solver time."""
+    groups = {}
+    for r in ob_reports:
+        g = groups.setdefault(re.sub(r"/(s\d+)?p\d+$", "", r["obligation"]), {"paths": 0, "discharged": 0, "refuted": 0, "undecided": 0, "backends": set(), "solver_s": 0.0, "kind": r["kind"]})
+        g["paths"] += 1
+        g[r["verdict"]] += 1
+        g["backends"].add(r["backend"].split(" ")[0])
+        g["solver_s"] += r["solver_s"]
+    return [{"obligation": k, **{kk: (sorted(vv) if isinstance(vv, set) else round(vv, 3) if isinstance(vv, float) else vv) for kk, vv in v.items()}} for k, v in groups.items()]
+
+
 def _safe(name: str) -> str:
     return re.sub(r"[^A-Za-z0-9_.\-\[\]]+", "_", name)[:180]
 
@@ -279,7 +291,9 @@ def run_property(pid: str, tier: str, seed: int) -> int:
         "checker_cmd": f"./check {pid} --tier {tier}  (pyvc: AST of {REPO} -> SMT-LIB; z3 5.1.0 CLI `z3-new`, unknowns to /usr/bin/cvc5 1.0.3 --strings-exp)",
         "trusted_base": sorted(trusted),
         "explanation": getattr(spec, "EXPLANATION", ""),
-        "units": unit_reports, "obligation_results": ob_reports, "undecided": undecided, "solver_s_total": round(solver_s, 2),
+        "units": unit_reports, "obligation_groups": _group_reports(ob_reports),
+        "obligation_results_not_discharged": [r for r in ob_reports if r["verdict"] != "discharged"][:300],
+        "obligation_results_sample": ob_reports[:60], "undecided": undecided[:300], "solver_s_total": round(solver_s, 2),
         "refuted": [v["what"] for v in violations if "bounded" not in v["what"]],
         "bounded": bounded_reports,
         "evaluations": evals, "distinct_nontrivial": distinct,
